@@ -26,7 +26,9 @@ RULE = (
     "lists concatenated; (c) two loads compare equal, a structural single edit compares unequal, ==/!= never raise, also "
     "against foreign objects; (d) single schema-violating edits x 4 plugins x position in the model list: "
     "generator.__main__.main raises before any plugin code runs (spy) and nothing is written; a sample through the real "
-    "CLI. non-trivial = evolved/mutated document, unequal pair, or violating edit; distinct = sha256 of the document/edit"
+    "CLI; (e) model *files* (non-ASCII characters escaped / raw UTF-8, and the committed file) through the real command "
+    "under the default environment and under a non-UTF-8 locale encoding: same output as the reference, no failure. "
+    "non-trivial = evolved/mutated document, unequal pair, or violating edit; distinct = sha256 of the document/edit"
 )
 
 
@@ -562,6 +564,11 @@ def run(ctx: Ctx) -> None:
     for kind, _ in gate_cases:
         distinct.add(h(["gate", kind]))
     samples.append({"violating_edit_kinds": sorted({k for k, _ in gate_cases})})
+    # (e) the step from a model *file* to the document: the command reads the same model whatever the text encoding the
+    #     platform would pick for open() - a JSON document is UTF-8 text (non-ASCII characters written raw or escaped)
+    file_stats = file_level_loading(ctx, base)
+    evaluations += file_stats["runs"]
+    counters.update({f"file-level:{k}": v for k, v in file_stats.items()})
     ctx.coverage.update({
         "evaluations": evaluations, "distinct_nontrivial": len(distinct), "rule": RULE, "samples": samples,
         "case_counters": dict(counters), "exhaustive": False,
@@ -570,7 +577,57 @@ def run(ctx: Ctx) -> None:
         "'schema-valid' means valid against the MetaModel definition of lsp.schema.json (the file has no root $ref)",
         "read-back drops id_, None and the loader's default empty extends/mixins on both sides",
         "annotation-only differences are not required to make models unequal (the statement says structurally)",
+        "a model file is UTF-8 JSON text (RFC 8259); the locale's preferred encoding is not part of the input (emulated with LC_ALL=C, PYTHONUTF8=0, PYTHONCOERCECLOCALE=0)",
     ]
+
+
+def file_level_loading(ctx: Ctx, base: dict) -> Dict[str, int]:
+    import subprocess
+    from ..subject import REPO
+    stats = collections.Counter()
+    d = gen.scratch("lspverif-c18-files-")
+    try:
+        # a reduced document keeps the run short; its documentation strings contain non-ASCII characters
+        from .c16 import submodel
+        small = submodel(base, ["textDocument/hover", "textDocument/didOpen", "$/progress"])
+        small["structures"][0]["documentation"] = (small["structures"][0].get("documentation") or "") + " caf\u00e9 \u2192 \U0001F600 \u00df"
+        encodings = {"escaped": dict(ensure_ascii=True), "raw-utf8": dict(ensure_ascii=False)}
+        paths = {}
+        for tag, kw in encodings.items():
+            paths[tag] = os.path.join(d, f"model-{tag}.json")
+            with open(paths[tag], "w", encoding="utf-8") as f:
+                json.dump(small, f, **kw)
+        envs = {
+            "default": {},
+            # what open() without an explicit encoding does on a platform whose locale encoding is not UTF-8
+            "locale-C": {"LC_ALL": "C", "LANG": "C", "PYTHONCOERCECLOCALE": "0", "PYTHONUTF8": "0"},
+        }
+        outputs = {}
+        for ptag, path in list(paths.items()) + [("committed", None)]:
+            for etag, extra in envs.items():
+                out = os.path.join(d, f"out-{ptag}-{etag}")
+                cmd = [gen.PY, "-B", "-m", "generator", "--plugin", "python", "--output-dir", out] + (["--model", path] if path else [])
+                env = {k: v for k, v in os.environ.items() if k not in ("LC_ALL", "LANG", "LC_CTYPE", "PYTHONUTF8", "PYTHONCOERCECLOCALE", "PYTHONIOENCODING")}
+                env.update(PYTHONPATH=REPO, PYTHONHASHSEED="0", PYTHONDONTWRITEBYTECODE="1", **extra)
+                r = subprocess.run(cmd, cwd=REPO, env=env, capture_output=True, timeout=900)
+                stats["runs"] += 1
+                case = {"model_file": ptag, "environment": etag}
+                if r.returncode != 0:
+                    tail = (r.stderr or r.stdout).decode("utf-8", "replace").strip().splitlines()[-1:] or [""]
+                    ctx.finding(("model-file-not-loaded", ptag, etag), f"`python -m generator --plugin python` on the {ptag} model file fails under environment {etag}: {tail[0][:200]}", case)
+                    continue
+                with open(os.path.join(out, "lsprotocol", "types.py"), "rb") as f:
+                    outputs[(ptag, etag)] = f.read()
+        for ptag in list(paths) + ["committed"]:
+            ref_key = ("escaped", "default") if ptag != "committed" else ("committed", "default")
+            for etag in envs:
+                got, ref = outputs.get((ptag, etag)), outputs.get(ref_key)
+                if got is not None and ref is not None and got != ref:
+                    ctx.finding(("model-file-read-differently", ptag, etag), f"the {ptag} model file under environment {etag} gives another types.py than {ref_key}: the document was not read as written",
+                                {"model_file": ptag, "environment": etag})
+    finally:
+        shutil.rmtree(d, ignore_errors=True)
+    return dict(stats)
 
 
 _GATE: Dict[str, Any] = {}
